@@ -2,67 +2,73 @@
 (* C05 -- equality, hashing and lookup AS BUILT, next to the required EqHash.          *)
 (*                                                                                    *)
 (* The pinned tree compares and hashes through Python:                                 *)
-(*   Dev_BoolIsInt       inside collections (elements of sequential values, keys and   *)
-(*                       values of maps, elements of sets, and keys looked up in maps  *)
-(*                       and sets) Python's True == 1 and False == 0 decide; only the  *)
-(*                       top level of `=` keeps booleans apart (runtime.equals).       *)
+(*   Dev_BoolIsIntInSequences   the elements of sequential values are compared with  *)
+(*                       Python's != (interfaces.seq_equals): True == 1, False == 0.   *)
+(*   Dev_BoolIsIntInHashedCollections   keys and values of maps, elements of sets, and *)
+(*                       keys looked up in maps and sets go through Python's hash/==   *)
+(*                       (immutables.Map): True is the key 1, False the key 0.         *)
+(*                       (Only the top level of `=` keeps booleans apart.)             *)
 (*   Dev_HashByRepresentation  a vector / map entry hashes as a pyrsistent pvector,    *)
 (*                       every other sequential value as a tuple: equal sequential     *)
 (*                       values of the two families have different hashes, so as keys  *)
 (*                       of maps / elements of sets they do not find each other, and   *)
 (*                       sets / maps that contain them are not equal.                  *)
-(* ICanon(v, bi, hr, nested, askey) is the class of v under that behaviour (bi, hr: the *)
-(* two deviations; nested: below the top level; askey: in a position that is hashed).  *)
-(* With both deviations off it is Canon (invariant Refines).                           *)
+(* ICanon(v, bs, bk, hr, ctx, askey) is the class of v under that behaviour (bs, bk, hr: *)
+(* the three deviations; ctx: where v stands -- "top", "seq" = element of a sequential  *)
+(* value, "hashed" = key / value / element of a map or set, or a key being looked up;   *)
+(* askey: in a position that is hashed).  With the deviations off it is Canon (Refines). *)
 (*                                                                                    *)
 (* Machine T (from EqHash) gets the as-built invariants; machine L is the lookup       *)
 (* machine: a model map and a model set keyed by CLASS, run for four keyings at once   *)
-(* ("req" = Canon, "B", "H", "BH" = as built with the deviations), so that every node  *)
+(* ("req" = Canon, "S" "K" "H" "SK" ... = as built with those deviations), so that every node *)
 (* of the history tree carries the required observations and what the as-built model   *)
 (* predicts.                                                                           *)
 EXTENDS EqHash, Json
 
-CONSTANTS DevBoolIsInt, DevHashByRep,   \* machine T: the deviations under which the as-built invariants are checked
+CONSTANTS DevBoolSeq, DevBoolKey, DevHashByRep,   \* machine T: the deviations under which the as-built invariants are checked
           KeySeq,                       \* machine L: sequence of indices into U used as keys
           MaxDepth
 
 Family(r) == IF r \in {"vector", "entry"} THEN "pvec" ELSE "tuple"
 
-RECURSIVE ICanon(_, _, _, _, _)
-ICanon(v, bi, hr, nested, askey) ==
+RECURSIVE ICanon(_, _, _, _, _, _)
+ICanon(v, bs, bk, hr, ctx, askey) ==
   CASE v.k = "nil" -> <<"nil">>
-    [] v.k = "bool" -> IF bi /\ nested THEN <<"num", IF v.b THEN 1 ELSE 0, 1>> ELSE <<"bool", IF v.b THEN 1 ELSE 0>>
+    [] v.k = "bool" -> IF (bs /\ ctx = "seq") \/ (bk /\ ctx = "hashed")
+                         THEN <<"num", IF v.b THEN 1 ELSE 0, 1>> ELSE <<"bool", IF v.b THEN 1 ELSE 0>>
     [] v.k = "num" -> NumClass(v.n, v.d)
     [] v.k = "nan" -> <<"nan">>
     [] v.k \in {"str", "kw", "sym"} -> <<v.k, v.s>>
     [] v.k = "seq" -> <<"seq", IF hr /\ askey THEN Family(v.r) ELSE "-",
-                        [i \in 1..Len(v.xs) |-> ICanon(v.xs[i], bi, hr, TRUE, askey)]>>
-    [] v.k = "set" -> <<"set", {ICanon(v.xs[i], bi, hr, TRUE, TRUE) : i \in 1..Len(v.xs)}>>
+                        [i \in 1..Len(v.xs) |-> ICanon(v.xs[i], bs, bk, hr, "seq", askey)]>>
+    [] v.k = "set" -> <<"set", {ICanon(v.xs[i], bs, bk, hr, "hashed", TRUE) : i \in 1..Len(v.xs)}>>
     [] v.k = "map" -> <<IF v.r = "pmap" THEN "map" ELSE v.r,
-                        {<<ICanon(v.es[i][1], bi, hr, TRUE, TRUE), ICanon(v.es[i][2], bi, hr, TRUE, askey)>>
+                        {<<ICanon(v.es[i][1], bs, bk, hr, "hashed", TRUE), ICanon(v.es[i][2], bs, bk, hr, "hashed", askey)>>
                            : i \in 1..Len(v.es)}>>
 
-ImplEqD(x, y, bi, hr) == ~IsNaN(x) /\ ~IsNaN(y) /\ ICanon(x, bi, hr, FALSE, FALSE) = ICanon(y, bi, hr, FALSE, FALSE)
+ImplEqD(x, y, bs, bk, hr) == /\ ~IsNaN(x) /\ ~IsNaN(y)
+                             /\ ICanon(x, bs, bk, hr, "top", FALSE) = ICanon(y, bs, bk, hr, "top", FALSE)
 (* equal hashes, as built (Python hashes True like 1 whatever else happens) *)
-ImplHashSameD(x, y, hr) == ICanon(x, TRUE, hr, TRUE, TRUE) = ICanon(y, TRUE, hr, TRUE, TRUE)
-ImplEq(x, y) == ImplEqD(x, y, DevBoolIsInt, DevHashByRep)
-ImplHashSame(x, y) == ImplHashSameD(x, y, DevHashByRep)
+ImplHashSameD(x, y, hr) == ICanon(x, TRUE, TRUE, hr, "hashed", TRUE) = ICanon(y, TRUE, TRUE, hr, "hashed", TRUE)
 
 (* ------------------------------ machine T: as-built invariants ----------------------- *)
 (* constant tables (U is a constant) *)
-IEqTabD(bi, hr) == LET C == TLCEval([i \in 1..NU |-> ICanon(U[i], bi, hr, FALSE, FALSE)])
+IEqTabD(bs, bk, hr) == LET C == TLCEval([i \in 1..NU |-> ICanon(U[i], bs, bk, hr, "top", FALSE)])
                    IN TLCEval([i \in 1..NU |-> TLCEval([j \in 1..NU |-> ~IsNaN(U[i]) /\ ~IsNaN(U[j]) /\ C[i] = C[j]])])
-IHsTabD(hr) == LET C == TLCEval([i \in 1..NU |-> ICanon(U[i], TRUE, hr, TRUE, TRUE)])
+IHsTabD(hr) == LET C == TLCEval([i \in 1..NU |-> ICanon(U[i], TRUE, TRUE, hr, "hashed", TRUE)])
                IN TLCEval([i \in 1..NU |-> TLCEval([j \in 1..NU |-> C[i] = C[j]])])
-IEqTab == IEqTabD(DevBoolIsInt, DevHashByRep)
+IEqTab == IEqTabD(DevBoolSeq, DevBoolKey, DevHashByRep)
 IHsTab == IHsTabD(DevHashByRep)
 Refines == IEqTab[a][b] <=> EqI(a, b)
 HashRespects == EqI(a, b) => IHsTab[a][b]
 ImplSymmetric == IEqTab[a][b] <=> IEqTab[b][a]
 ImplTransitive == (IEqTab[a][b] /\ IEqTab[b][c]) => IEqTab[a][c]
-TabB == IEqTabD(TRUE, FALSE)
-TabH == IEqTabD(FALSE, TRUE)
-TabBH == IEqTabD(TRUE, TRUE)
+(* the deviation combinations: S = BoolIsIntInSequences, K = BoolIsIntInHashedCollections, H = HashByRepresentation *)
+DevSets == {"S", "K", "H", "SK", "SH", "KH", "SKH"}
+InS(m) == m \in {"S", "SK", "SH", "SKH"}
+InK(m) == m \in {"K", "SK", "KH", "SKH"}
+InH(m) == m \in {"H", "SH", "KH", "SKH"}
+DevTab == TLCEval([m \in DevSets |-> IEqTabD(InS(m), InK(m), InH(m))])
 TabHsH == IHsTabD(TRUE)
 
 Bit(x) == IF x THEN 1 ELSE 0
@@ -70,25 +76,22 @@ Cls(i) == IF IsNaN(U[i]) THEN 0 ELSE CHOOSE j \in 1..NU : EqI(i, j) /\ \A m \in 
 (* one table row per value: the required verdicts and what the as-built model says *)
 Row == [i |-> a, v |-> El(a), cls |-> Cls(a),
         eq |-> [j \in 1..NU |-> Bit(EqI(a, j))],
-        eqB |-> [j \in 1..NU |-> Bit(TabB[a][j])],
-        eqH |-> [j \in 1..NU |-> Bit(TabH[a][j])],
-        eqBH |-> [j \in 1..NU |-> Bit(TabBH[a][j])],
+        dev |-> [m \in DevSets |-> [j \in 1..NU |-> Bit(DevTab[m][a][j])]],
         hsH |-> [j \in 1..NU |-> Bit(TabHsH[a][j])]]
 EmitT == (b = 1 /\ c = 1) => PrintT(<<"TAB", ToJson(Row)>>)
 
 (* ------------------------------ machine L: lookup ------------------------------------ *)
-VARIABLES lm,       \* [mode -> model map: key class -> value]
+VARIABLES nxt,      \* random histories: the chosen operation, not yet performed (<<>> = none)
+          lm,       \* [mode -> model map: key class -> value]
           ls,       \* [mode -> model set of key classes]
           path,     \* the operations so far, <<op, position in KeySeq>>
           used      \* the keys used so far (for `distinct`)
-lvars == <<lm, ls, path, used>>
-Modes == {"req", "B", "H", "BH"}
+lvars == <<lm, ls, path, used, nxt>>
+Modes == {"req"} \cup DevSets
 NK == Len(KeySeq)
 KeyVal(p) == U[KeySeq[p]]
-KC(p, mo) == CASE mo = "req" -> Canon(KeyVal(p))
-               [] mo = "B" -> ICanon(KeyVal(p), TRUE, FALSE, TRUE, TRUE)
-               [] mo = "H" -> ICanon(KeyVal(p), FALSE, TRUE, TRUE, TRUE)
-               [] mo = "BH" -> ICanon(KeyVal(p), TRUE, TRUE, TRUE, TRUE)
+KC(p, mo) == IF mo = "req" THEN Canon(KeyVal(p))
+             ELSE ICanon(KeyVal(p), InS(mo), InK(mo), InH(mo), "hashed", TRUE)
 (* the class of key number p under a keying: the first key position with the same class (a constant table) *)
 KCTab == TLCEval([mo \in Modes |-> TLCEval([p \in 1..NK |-> KC(p, mo)])])
 KCls == TLCEval([mo \in Modes |-> TLCEval([p \in 1..NK |->
@@ -98,12 +101,11 @@ MSet(m, k, v) == [x \in DOMAIN m \cup {k} |-> IF x = k THEN v ELSE m[x]]
 MDel(m, k) == [x \in DOMAIN m \ {k} |-> m[x]]
 EmptyMap == [x \in {} |-> 0]
 
-Idle == lm = [mo \in Modes |-> EmptyMap] /\ ls = [mo \in Modes |-> {}] /\ path = <<>> /\ used = <<>>
+Idle == lm = [mo \in Modes |-> EmptyMap] /\ ls = [mo \in Modes |-> {}] /\ path = <<>> /\ used = <<>> /\ nxt = <<>>
 InitTI == InitT /\ Idle                                   \* machine T inside this module
-NextTI == NextT /\ UNCHANGED <<lm, ls, path, used>>
-InitL == /\ lm = [mo \in Modes |-> EmptyMap] /\ ls = [mo \in Modes |-> {}]
-         /\ path = <<>> /\ used = <<>>
-         /\ a = 1 /\ b = 1 /\ c = 1
+NextTI == NextT /\ UNCHANGED lvars
+NextTI2 == b = 1 /\ c = 1 /\ a' = a /\ b' \in 1..NU /\ c' = 1 /\ UNCHANGED lvars     \* pairs only
+InitL == Idle /\ a = 1 /\ b = 1 /\ c = 1
 Op(op, p) ==
   /\ lm' = [mo \in Modes |-> CASE op = "assoc" -> MSet(lm[mo], KCls[mo][p], Len(path) + 1)
                                [] op = "dissoc" -> MDel(lm[mo], KCls[mo][p])
@@ -113,7 +115,13 @@ Op(op, p) ==
                                [] OTHER -> ls[mo]]
   /\ path' = Append(path, <<op, p>>) /\ used' = Append(used, p)
   /\ UNCHANGED tvars
-NextL == Len(path) < MaxDepth /\ \E op \in {"assoc", "dissoc", "conj", "disj"}, p \in 1..NK : Op(op, p)
+Ops == {"assoc", "dissoc", "conj", "disj"}
+NextL == Len(path) < MaxDepth /\ (\E op \in Ops, p \in 1..NK : Op(op, p)) /\ nxt' = nxt
+(* `-simulate`: the simulator evaluates every successor before it picks one, so a random step first      *)
+(* chooses the operation (cheap successors) and then performs it (one successor, the one that is printed) *)
+NextLS == IF nxt = <<>>
+            THEN Len(path) < MaxDepth /\ (\E op \in Ops, p \in 1..NK : nxt' = <<op, p>>) /\ UNCHANGED <<a, b, c, lm, ls, path, used>>
+            ELSE Op(nxt[1], nxt[2]) /\ nxt' = <<>>
 
 (* what the implementation must show in a state, under one keying *)
 LObs(mo) ==
@@ -122,12 +130,13 @@ LObs(mo) ==
    nm |-> Cardinality(DOMAIN lm[mo]), ns |-> Cardinality(ls[mo]),
    (* (distinct <keys used so far>) keeps the first occurrence of every class *)
    dist |-> {n \in 1..Len(used) : \A m \in 1..(n - 1) : KCls[mo][used[m]] # KCls[mo][used[n]]}]
-EmitL == PrintT(<<"NODE", ToJson([p |-> path, req |-> LObs("req"),
-                                  dev |-> [mo \in {m \in Modes \ {"req"} : LObs(m) # LObs("req")} |-> LObs(mo)]])>>)
+EmitL == nxt = <<>> =>
+  LET O == TLCEval([mo \in Modes |-> LObs(mo)]) IN
+  PrintT(<<"NODE", ToJson([p |-> path, ks |-> IF path = <<>> THEN KeySeq ELSE <<>>, req |-> O["req"],
+                           dev |-> [mo \in {m \in Modes \ {"req"} : O[m] # O["req"]} |-> O[mo]]])>>)
 (* lookup with one representation finds what was stored with another: by construction of the class keying; *)
 (* stated as an invariant so that a change of the machine that loses it is noticed                             *)
 LookupRespectsEq ==
-  \A p, q \in 1..NK : EqI(KeySeq[p], KeySeq[q]) =>
-     /\ LObs("req").get[p] = LObs("req").get[q]
-     /\ LObs("req").has[p] = LObs("req").has[q]
+  LET o == LObs("req") IN
+  \A p, q \in 1..NK : EqI(KeySeq[p], KeySeq[q]) => (o.get[p] = o.get[q] /\ o.has[p] = o.has[q])
 ===================================================================================
